@@ -35,6 +35,15 @@ ATOMS = [
     ("type-alias", "type {n} = int"), ("comp", "[0 for {n} in []]"), ("genexp", "list(0 for {n} in [])"),
     ("dictcomp", "{{0: 0 for {n} in []}}"), ("nested-comp", "[[{n} for {n} in [c]] for c in []]"), ("lambda", "(lambda {n}: {n})"),
     ("while-else", "while False:\n    pass\nelse:\n    {n} = 1"), ("if-else", "if c0:\n    {n} = 1\nelse:\n    c = 1"),
+    ("comp-in-return-like", "c = len([{n} for {n} in []]) + 1"), ("comp-in-augassign", "c = 0\nc += sum({n} for {n} in [])"),
+    ("comp-in-if-test", "if [{n} for {n} in []]:\n    pass"), ("comp-in-call-kw", "c = dict(k=[{n} for {n} in []])"),
+    ("comp-in-subscript", "c = [0][len([{n} for {n} in []])]"), ("comp-in-for-iter", "for c in [{n} for {n} in []]:\n    pass"),
+    ("comp-in-while-test", "while [{n} for {n} in []]:\n    pass"), ("comp-in-with", "with open(str([{n} for {n} in []])) as c:\n    pass"),
+    ("comp-in-assert", "assert not [{n} for {n} in []]"), ("comp-in-lambda", "c = lambda: [{n} for {n} in []]"),
+    ("dedented-comment-in-if", "if c0:\n    {n} = 1\n# low comment\n    c = 2"), ("dedented-comment-in-for", "for c in []:\n    {n} = 1\n  # low comment\n    {n} = 2"),
+    ("col0-comment-in-if", "if c0:\n    {n} = 1\n#COL0 comment at column zero\n    c = 2"),
+    ("col0-comment-in-while", "while c0:\n    {n} = 1\n#COL0 comment at column zero\n    break"),
+    ("dedented-comment-in-try", "try:\n    {n} = 1\n# low comment\nfinally:\n    c = 2"), ("blank-lines-in-if", "if c0:\n    {n} = 1\n\n\n    c = 2"),
 ]
 PARAMS = [("p-normal", "{n}"), ("p-default", "{n}=1"), ("p-posonly", "{n}, /"), ("p-kwonly", "*, {n}"), ("p-kwonly-default", "*, {n}=1"),
           ("p-vararg", "*{n}"), ("p-kwarg", "**{n}"), ("p-mixed", "c, /, d, *e, {n}, **f"), ("p-annotated", "{n}: int"), ("p-none", "")]
@@ -42,7 +51,8 @@ CHAINS = ["", "F", "C", "FF", "FC", "CF", "CC", "FFF", "FCF", "CFF", "CFC", "FFC
 
 
 def indent(s, n):
-    return "\n".join((" " * n + l) if l else l for l in s.split("\n"))
+    # lines starting with "#COL0" are comments that stay at column 0 whatever the nesting
+    return "\n".join((l if l.startswith("#COL0") else " " * n + l) if l else l for l in s.split("\n"))
 
 
 def make_program(chain, atom_src, outer, params, use):
@@ -63,15 +73,20 @@ def make_program(chain, atom_src, outer, params, use):
         if not innermost:
             for nm in outer[i + 1]:
                 lines.append(indent("%s = %d" % (nm, i + 1), ind))
-    lines.append(indent(atom_src, ind))
-    lines.append(indent(use, ind))
+    if use.startswith("FIRST:"):
+        lines.append(indent(use[6:], ind))
+        lines.append(indent(atom_src, ind))
+        lines.append("tail_marker = 0")
+    else:
+        lines.append(indent(atom_src, ind))
+        lines.append(indent(use, ind))
     return "\n".join(lines) + "\n"
 
 
 class C15(Check):
     pid = "C15"
     level = "exploration"
-    rule = ("cases = (scope chain in 12 chains of function/class nesting to depth 3, binding atom in 40 constructs binding name a, "
+    rule = ("cases = (scope chain in 12 chains of function/class nesting to depth 3, binding atom in 56 constructs binding name a, "
             "names bound by the enclosing levels in {none, a, b, a+b} uniformly, or independently {none, a+b} per level, parameter "
             "list of the innermost function in 10 kinds, a trailing statement reading a, b and c); programs that CPython rejects "
             "are dropped; evaluations = sub-checks per program: scope tree (kinds and line extents), owned names per scope, "
@@ -97,6 +112,8 @@ class C15(Check):
                         if tier == "quick" and pi not in (0, 9) and ai not in (0, 25, 26, 33):
                             continue
                         out.append({"chain": chain, "atom": ai, "outer": ob, "param": pi, "pname": "b"})
+                        if ob in ("", "ab") and pi in (0, 9) and chain:
+                            out.append({"chain": chain, "atom": ai, "outer": ob, "param": pi, "pname": "b", "atom_last": True})
                         if pi != 9 and ai in (0, 26):
                             out.append({"chain": chain, "atom": ai, "outer": ob, "param": pi, "pname": "a"})
         return out
@@ -117,7 +134,9 @@ class C15(Check):
             outer = tuple(case["outer"].split("|"))
         else:
             outer = tuple(case["outer"] for _ in range(len(chain) + 1))
-        use = "r = (a, b, c)" if "global" not in aname and "nonlocal" not in aname else "r = (a, b, c)"
+        use = "r = (a, b, c)"
+        if case.get("atom_last"):
+            use = "FIRST:r = (b, c)"
         src = make_program(chain, atom_src, outer, params, use)
         try:
             compile(src, "<c15>", "exec")
@@ -129,7 +148,7 @@ class C15(Check):
         if problems:
             return {"harness": "binder disagrees with symtable on %r: %r" % (src, problems[:2])}
         tree, b = build(src)
-        feats0 = ["atom:" + aname, "chain:" + (chain or "module"), "innermost:" + (chain[-1] if chain else "M"), "outer:" + (case["outer"] or "none"),
+        feats0 = (["atom-last"] if case.get("atom_last") else []) + ["atom:" + aname, "chain:" + (chain or "module"), "innermost:" + (chain[-1] if chain else "M"), "outer:" + (case["outer"] or "none"),
                   "param:" + PARAMS[case["param"]][0], "pname:" + case["pname"]]
         mod = libutils.get_string_module(self.project, src)
         gscope = mod.get_scope()
